@@ -245,6 +245,7 @@ func specs() []spec {
 		{name: "e26-fractional", schema: 1, zt: 0.001, zc: 0.1, pos: bk{1: 0.1, 2: third, 3: 0.7}, neg: bk{2: 2.5e-3}, sum: 1.9, inexact: true},
 		{name: "e27-huge", schema: 0, pos: bk{1: 1e16, 2: 3}, sum: 1.5e16, inexact: true},
 		{name: "e28-nan-sum", schema: 0, pos: bk{1: 1}, extra: 2, sum: math.NaN()},
+		{name: "e28b-nan-sum-two", schema: 0, zt: 0.001, zc: 1, pos: bk{1: 1, 2: 2}, neg: bk{1: 1}, extra: 1, sum: math.NaN()},
 		{name: "e29-stale", schema: 0, sum: math.Float64frombits(staleNaNBits)},
 		{name: "e30-gauge", schema: 0, zt: 0.001, zc: 2, pos: bk{1: 3, 2: 1}, sum: 9, hint: G},
 		{name: "e31-gauge-s1", schema: 1, pos: bk{2: 1}, neg: bk{2: 1}, sum: 0, hint: G},
